@@ -9,6 +9,8 @@ import SparseSpace.Properties.C06
 #print axioms SparseSpace.C06.selection_exact
 #print axioms SparseSpace.C06.init_wf
 #print axioms SparseSpace.C06.step_wf
+#print axioms SparseSpace.C06.raise_lmax_terminates
+#print axioms SparseSpace.C06.raiseLoop_terminates
 #print axioms SparseSpace.C06.reachable_wf
 #print axioms SparseSpace.C06.wf_clauses
 #print axioms SparseSpace.C06.all_histories
